@@ -908,6 +908,7 @@ class TestResult(unittest.TestResult):
         self._stderr_buffer = None
         self._original_stdout = sys.stdout
         self._original_stderr = sys.stderr
+        self._std_streams_buffered = False
 
     def testSetUp(self):
         """A layer may define a setup method to be called before each
@@ -952,12 +953,17 @@ class TestResult(unittest.TestResult):
                 self._stderr_buffer = self._makeBufferedStdStream()
             sys.stdout = self._stdout_buffer
             sys.stderr = self._stderr_buffer
+            self._std_streams_buffered = True
 
     def _restoreStdStreams(self):
         """Restore the buffered standard streams and return any contents."""
-        if self.options.buffer:
-            stdout = sys.stdout.getvalue()
-            stderr = sys.stderr.getvalue()
+        # A test can produce several result events (e.g. several failing
+        # subtests, or an error in the test and another one in tearDown):
+        # only the first one finds the buffers installed.
+        if self.options.buffer and self._std_streams_buffered:
+            self._std_streams_buffered = False
+            stdout = self._stdout_buffer.getvalue()
+            stderr = self._stderr_buffer.getvalue()
             sys.stdout = self._original_stdout
             sys.stderr = self._original_stderr
             self._stdout_buffer.seek(0)
